@@ -256,9 +256,11 @@ def signature(p, clause, c):
 
 
 def judge(ctx, recs, what, constants=None):
+    big = len(recs) > 21000          # thorough-tier chunks: more, smaller TLC processes
     rejects = tracecheck.validate(ctx, "BinStatsTrace.tla",
                                   [{"id": r["id"], "c": r["c"], "obs": [u["o"] for u in r["runs"]]} for r in recs],
-                                  what=what, constants=constants or {"StrictOneMember": STRICT})
+                                  what=what, constants=constants or {"StrictOneMember": STRICT},
+                                  shard_size=3200 if big else 5000, max_shards=8 if big else 5, workers=2 if big else None)
     byid = {r["id"]: r for r in recs}
     for rid, failing in sorted(rejects.items()):
         r = byid[rid]
@@ -328,7 +330,7 @@ def run(ctx):
                                 ("merge without the pointer decrement", {"MergeVariant": "nodec"}, "MergeRefines", "NextNoStats")):
         rb = ctx.tlc("BinStatsMC.tla", what="self-test: %s violates %s" % (name, inv),
                      cfg_text=cfg(constants=dict(small, **dev), invariants=[inv], next_=nxt),
-                     workers=2, allow_violation=True, coverage=False)
+                     workers=1, allow_violation=True, coverage=False)      # one worker: deterministic state count
         if inv not in rb.violated:
             raise MachineryError("self-test failed: %s not violated by the deviating mechanism (%s)" % (inv, name))
     # 2. export every case (spec -> code)
